@@ -86,11 +86,8 @@ func listcChild(chansArg string, eventsArg string) {
 				obs = append(obs, "closed")
 				closed = true
 			case lr.Err != nil:
-				var se *scriptErr
-				code := -1
-				if errors.As(lr.Err, &se) {
-					code = se.code
-				} else if errors.Is(lr.Err, context.Canceled) {
+				code := codeOfErr(lr.Err)
+				if errors.Is(lr.Err, context.Canceled) {
 					code = 0
 				}
 				if code == 0 {
@@ -145,7 +142,7 @@ func listcChild(chansArg string, eventsArg string) {
 			it := chans[i][pos[i]]
 			pos[i]++
 			if it.isErr {
-				give(i, recvListItem{err: &scriptErr{it.payload}})
+				give(i, recvListItem{err: itemErr(it.payload)})
 				finished[i] = true
 			} else {
 				give(i, recvListItem{keys: []string{it.key}})
